@@ -1,4 +1,5 @@
 import Martian.Types
+import Martian.JsonBytes
 import Driver.Util
 
 /-!
@@ -17,6 +18,9 @@ Operations (`C17.<op>\t<arg>…`):
   (values sent to `case` are in last-wins normal form: the harness applies `dedupLast` at every object)
   info <type>           → `<fileKind> <canFilter> <wf> <arrayDim> <mapDim>`
   caser <type> <json>   → as `case`, over numerals as Go reads them (Martian.TypesR)
+  parseb <hex>          → `some <json>` | `none`   (Martian.JsonBytes.parseTop)
+  printb <json>         → hex of the canonical text (printJ)
+  filterb <type> <hex>  → `<hex of returned bytes> <ferr>` | `none`   (Martian.JsonBytes.filterBytes)
   num <json numeral>    → `<round64 neg:mant:exp2|inf> | <goInt?> | <finite64> | <exact64> | <exact int within int64>`
 -/
 namespace Driver.C17
@@ -153,6 +157,22 @@ def handle (op : String) (args : List String) : Option String :=
         | none => "none"
       pure (" | ".intercalate [r, g, boolStr n.finite64, boolStr n.exact64, x])
     | _ => none
+  | "parseb", [b] => do
+    -- byte-level JSON grammar: `some <json enc>` / `none`
+    let b ← bytesOfHex b
+    pure (match Martian.JsonBytes.parseTop b with
+      | some j => "some " ++ showJ j
+      | none => "none")
+  | "printb", [v] => do
+    let v ← jOf v
+    pure (hexOfBytes (Martian.JsonBytes.printJ v))
+  | "filterb", [t, b] => do
+    -- `FilterJson` on bytes: `<out bytes hex> <ferr>` / `none` (input is no JSON value)
+    let t ← tyOf t
+    let b ← bytesOfHex b
+    pure (match Martian.JsonBytes.filterBytes t b with
+      | some (o, e) => hexOfBytes o ++ " " ++ showFErr e
+      | none => "none")
   | "assign", [d, s] => do
     let d ← tyOf d
     let s ← tyOf s
